@@ -297,7 +297,7 @@ pub fn walk(rng: &mut Rng, i: u64, opts: &Opts) -> History {
         let p = if port == "mix" { *rng.pick(&["api", "chars"]) } else { port };
         evs.push(event(rng, &w, c, l, p, !utf8 && p != "api"));
     }
-    History { id: format!("walk-{}-{}-{}", port, focus, i), sid: String::new(), cmp: String::new(), c, l, scr: true, utf8, evs }
+    History { id: format!("walk-{}-{}-{}", port, focus, i), sid: String::new(), cmp: String::new(), c, l, scr: true, utf8, evs, setup: vec![], dispsetup: false }
 }
 
 /// the same history with display() interposed at no position and at a random
@@ -383,7 +383,7 @@ pub fn chunked(rng: &mut Rng, i: u64, opts: &Opts) -> Vec<History> {
                 }
                 prev = b;
             }
-            out.push(History { id: format!("{}-{}", sid, style), sid: sid.clone(), cmp: "C02".into(), c, l, scr: true, utf8, evs });
+            out.push(History { id: format!("{}-{}", sid, style), sid: sid.clone(), cmp: "C02".into(), c, l, scr: true, utf8, evs, setup: vec![], dispsetup: false });
         }
     }
     out
@@ -442,7 +442,7 @@ pub fn soup(rng: &mut Rng, i: u64, opts: &Opts) -> Vec<History> {
     evs.push(HEv { b: vec![0x18, 0x07, 0x07], ..hev("feedb", vec![], vec![], false, "bytes") });
     evs.push(HEv { b: vec![0x50], ..hev("feedb", vec![], vec![], false, "bytes") });
     evs.push(hev("display", vec![], vec![], false, "api"));
-    vec![History { id: format!("soup-{}", i), sid: String::new(), cmp: String::new(), c, l, scr: true, utf8, evs }]
+    vec![History { id: format!("soup-{}", i), sid: String::new(), cmp: String::new(), c, l, scr: true, utf8, evs, setup: vec![], dispsetup: false }]
 }
 
 /// recogniser-level soup over the class alphabet, recording listener only (C03, C11, C19)
@@ -496,7 +496,7 @@ pub fn recsoup(rng: &mut Rng, i: u64, opts: &Opts) -> Vec<History> {
         }
         prev = b;
     }
-    vec![History { id: format!("recsoup-{}-{}", port, i), sid: String::new(), cmp: String::new(), c: 4, l: 3, scr: false, utf8, evs }]
+    vec![History { id: format!("recsoup-{}-{}", port, i), sid: String::new(), cmp: String::new(), c: 4, l: 3, scr: false, utf8, evs, setup: vec![], dispsetup: false }]
 }
 
 /// the repository's captured sessions, cut at random offsets
@@ -520,7 +520,7 @@ pub fn captured(rng: &mut Rng, i: u64, opts: &Opts) -> Vec<History> {
             prev = b;
         }
         evs.push(hev("display", vec![], vec![], false, "api"));
-        out.push(History { id: format!("{}-{}", sid, style), sid: sid.clone(), cmp: "C02".into(), c: 80, l: 24, scr: true, utf8: true, evs });
+        out.push(History { id: format!("{}-{}", sid, style), sid: sid.clone(), cmp: "C02".into(), c: 80, l: 24, scr: true, utf8: true, evs, setup: vec![], dispsetup: false });
     }
     out
 }
